@@ -496,36 +496,32 @@ func (it *stringIter) next() tuple {
 }
 
 type mapIter struct {
-	iter *reflect.MapIter
-	ok   bool
+	m    map[value]value
+	keys []value
+	i    int
 }
 
 func (it *mapIter) next() tuple {
-	it.ok = it.iter.Next()
-	if !it.ok {
-		return []value{false, nil, nil}
+	for it.i < len(it.keys) {
+		k := it.keys[it.i]
+		it.i++
+		if v, ok := it.m[k]; ok { // entries deleted during the iteration are skipped
+			return []value{true, k, v}
+		}
 	}
-	k, v := it.iter.Key().Interface(), it.iter.Value().Interface()
-	return []value{true, k, v}
+	return []value{false, nil, nil}
 }
 
 type hashmapIter struct {
-	iter *reflect.MapIter
-	ok   bool
-	cur  *entry
+	entries []*entry
+	i       int
 }
 
 func (it *hashmapIter) next() tuple {
-	for {
-		if it.cur != nil {
-			k, v := it.cur.key, it.cur.value
-			it.cur = it.cur.next
-			return []value{true, k, v}
-		}
-		it.ok = it.iter.Next()
-		if !it.ok {
-			return []value{false, nil, nil}
-		}
-		it.cur = it.iter.Value().Interface().(*entry)
+	if it.i < len(it.entries) {
+		e := it.entries[it.i]
+		it.i++
+		return []value{true, e.key, e.value}
 	}
+	return []value{false, nil, nil}
 }
